@@ -83,6 +83,8 @@ pub assume_specification<T: Default, N> [<generic_array::GenericArray<T, N> as D
 pub trait ExOutputSizeUser {
     type ExternalTraitSpecificationFor: OutputSizeUser;
     type OutputSize: ArrayLength<u8> + 'static;
+    fn output_size() -> (r: usize)
+        ensures r == tnum::<Self::OutputSize>();
 }
 #[verifier::external_type_specification]
 #[verifier::external_body]
@@ -351,3 +353,4 @@ pub broadcast axiom fn sz_chacha() ensures #[trigger] nk_of::<chacha20poly1305::
 pub broadcast axiom fn sz_empty() ensures #[trigger] nk_of::<crate::aead::EmptyAeadImpl>() == 0, #[trigger] nn_of::<crate::aead::EmptyAeadImpl>() == 128, #[trigger] nt_of::<crate::aead::EmptyAeadImpl>() == 0;
 pub broadcast group alg_sizes { nh_sha256, nh_sha384, nh_sha512, sz_aes128, sz_aes256, sz_chacha, sz_empty }
 }
+
